@@ -14,6 +14,7 @@ CONSTANTS MaxDepth,      \* X.509 elements under the root of trust: 1..MaxDepth
           MaxRenames,    \* of which at most this many are non-canonical NAMINGS of an X.509 element,
           MaxWithRename, \* and at most this many choices in total once a naming is non-canonical
           Spares,        \* subset of {"none", "fresh", "twin"}: off-path X.509 element
+          MaxRounds,     \* validations of the SAME certificate object, the clock set anew before each
           Embeds         \* subset of {"none", "genuine", "foreign"}: a self-signed root certificate shipped
                          \* INSIDE the certificate as an element named like the root authority
 
@@ -23,12 +24,15 @@ Ghost  == "ghost"                        \* a name that no element has
 
 VARIABLES cert, rot,                     \* env: the certificate and the root of trust handed over
           ndef, nren,                    \* env: deviations applied so far / of which namings
+          scale,                         \* env: "near" | "extreme" - where the three instants and the free
+                                         \* ends of the validity windows lie on the calendar
+          clks, outs,                    \* env/obs: clock instant of every validation so far, and its outcome
           phase, cur, visited, chain, certifier, steps,   \* sys
           outcome, failing, reported     \* obs: what the validator returns for the target
-envv == <<cert, rot, ndef, nren>>
+envv == <<cert, rot, ndef, nren, scale, clks, outs>>
 sysv == <<phase, cur, visited, chain, certifier, steps>>
 obsv == <<outcome, failing, reported>>
-vars == <<cert, rot, ndef, nren, phase, cur, visited, chain, certifier, steps, outcome, failing, reported>>
+vars == <<cert, rot, ndef, nren, scale, clks, outs, phase, cur, visited, chain, certifier, steps, outcome, failing, reported>>
 
 (***************************************************************************)
 (* Env: genuine bases                                                      *)
@@ -43,15 +47,29 @@ vars == <<cert, rot, ndef, nren, phase, cur, visited, chain, certifier, steps, o
 \*   dupsubject   subject = subject of another X.509 element (not the certifying one)
 \*   rootsubject  subject = the root's subject
 \* Neither the property (CertV2Props never reads the field) nor the code looks at names.
+\* Time.  Three instants 1 < 2 < 3 at which the validator's clock may stand; every X.509 certificate
+\* has a validity WINDOW `win`, and `time` is always the class of the window at the present clock:
+\*   all     valid at 1, 2, 3            until1  valid at 1 (notAfter may be exactly instant 1), expired later
+\*   from3   valid at 3 only (notBefore may be exactly instant 3)      only2   valid at 2 only
+\* The first validation happens at instant 2; before every further validation of the same objects
+\* Env moves the clock to any other instant (Tick).
+Clocks  == {1, 2, 3}
+Windows == {"all", "until1", "from3", "only2"}
+TimeAt(w, c) == CASE w = "all"    -> "Valid"
+                  [] w = "until1" -> IF c = 1 THEN "Valid" ELSE "Expired"
+                  [] w = "from3"  -> IF c = 3 THEN "Valid" ELSE "NotYet"
+                  [] w = "only2"  -> IF c = 2 THEN "Valid" ELSE IF c = 1 THEN "NotYet" ELSE "Expired"
+                  [] OTHER        -> "na"
 Namings == {"canon", "selfissued", "likeparent", "nomatch", "rootissuer", "dupsubject", "rootsubject"}
 X509El(by, key, sigBy) == [kind |-> "x509", by |-> by, key |-> key, sigBy |-> sigBy, time |-> "Valid",
-                           curve |-> "P256", binds |-> TRUE, keyValid |-> TRUE, naming |-> "canon"]
+                           curve |-> "P256", binds |-> TRUE, keyValid |-> TRUE, naming |-> "canon",
+                           win |-> "all"]
 AttEl(by)   == [kind |-> "attkey", by |-> by, key |-> "att", sigBy |-> by, time |-> "na",
-                curve |-> "P256", binds |-> TRUE, keyValid |-> TRUE, naming |-> "na"]
+                curve |-> "P256", binds |-> TRUE, keyValid |-> TRUE, naming |-> "na", win |-> "na"]
 QuoteEl(by) == [kind |-> "quote", by |-> by, key |-> NoKey, sigBy |-> by, time |-> "na",
-                curve |-> "na", binds |-> TRUE, keyValid |-> TRUE, naming |-> "na"]
+                curve |-> "na", binds |-> TRUE, keyValid |-> TRUE, naming |-> "na", win |-> "na"]
 GoodRot == [kind |-> "x509", by |-> RootName, key |-> RootName, sigBy |-> RootName, time |-> "Valid",
-            curve |-> "P256", binds |-> TRUE, keyValid |-> TRUE, naming |-> "canon"]
+            curve |-> "P256", binds |-> TRUE, keyValid |-> TRUE, naming |-> "canon", win |-> "all"]
 
 ParentOfX(i) == IF i = 1 THEN RootName ELSE XNames[i - 1]
 \* d X.509 elements x1 (top) .. xd (certifies the attestation key), attestation key, quote, and
@@ -75,7 +93,7 @@ Base(d, sp, em) ==
 
 Init == /\ \E d \in 1..MaxDepth, sp \in Spares, em \in Embeds :
               (sp = "none" \/ em = "none") /\ cert = Base(d, sp, em)
-        /\ rot = GoodRot /\ ndef = 0 /\ nren = 0
+        /\ rot = GoodRot /\ ndef = 0 /\ nren = 0 /\ scale = "near" /\ clks = <<2>> /\ outs = <<>>
         /\ phase = "env" /\ cur = None /\ visited = {} /\ chain = <<>> /\ certifier = None /\ steps = 0
         /\ outcome = None /\ failing = None /\ reported = None
 
@@ -83,8 +101,14 @@ Init == /\ \E d \in 1..MaxDepth, sp \in Spares, em \in Embeds :
 (* Env: one defect per Mutate step (DESIGN: all combinations of            *)
 (* <= MaxDefects defects, re-parenting, wrong root)                        *)
 (***************************************************************************)
-SetTime(n, v)  == /\ cert[n].kind = "x509" /\ cert[n].time = "Valid"
-                  /\ cert' = [cert EXCEPT ![n].time = v] /\ UNCHANGED rot
+\* a validity window that does not cover all three instants (at instant 2: until1 = expired,
+\* from3 = not yet valid, only2 = valid now but neither before nor after)
+Clk == clks[Len(clks)]
+SetWindow(n, w) == /\ cert[n].kind = "x509" /\ cert[n].win = "all"
+                   /\ cert' = [cert EXCEPT ![n].win = w, ![n].time = TimeAt(w, Clk)] /\ UNCHANGED rot
+\* the root of trust's own certificate has a window too (nothing in C07 depends on it, see ValidIffP)
+SetRootWindow(w) == /\ rot.win = "all"
+                    /\ rot' = [rot EXCEPT !.win = w, !.time = TimeAt(w, Clk)] /\ UNCHANGED cert
 BadSig(n)      == /\ cert[n].sigBy # "other"
                   /\ cert' = [cert EXCEPT ![n].sigBy = "other"] /\ UNCHANGED rot
 \* the curve belongs to the key: every certificate over that key shows it
@@ -125,12 +149,13 @@ Mutate == /\ phase = "env" /\ ndef < MaxDefects
           /\ nren > 0 => ndef < MaxWithRename
           /\ UNCHANGED nren
           /\ \/ \E n \in DOMAIN cert :
-                  \/ \E v \in {"Expired", "NotYet"} : SetTime(n, v)
+                  \/ \E w \in Windows \ {"all"} : SetWindow(n, w)
                   \/ BadSig(n) \/ OtherCurve(n) \/ Unbind(n) \/ BadKey(n)
                   \/ \E m \in DOMAIN cert \cup {RootName, Ghost} : n \notin {"spare", RootName} /\ Reparent(n, m)
              \/ WrongRoot \/ ForgeTop
+             \/ \E w \in Windows \ {"all"} : SetRootWindow(w)
           /\ ndef' = ndef + 1
-          /\ UNCHANGED <<sysv, obsv>>
+          /\ UNCHANGED <<scale, clks, outs, sysv, obsv>>
 
 (***************************************************************************)
 (* Sys: HSMCertificate._parse (path-to-root sanity check for the target)   *)
@@ -196,10 +221,41 @@ Walk ==
 MutateName == /\ phase = "env" /\ ndef < MaxDefects /\ ndef < MaxWithRename /\ nren < MaxRenames
               /\ \E n \in DOMAIN cert, v \in Namings \ {"canon"} : Rename(n, v)
               /\ ndef' = ndef + 1 /\ nren' = nren + 1
-              /\ UNCHANGED <<sysv, obsv>>
+              /\ UNCHANGED <<scale, clks, outs, sysv, obsv>>
+
+\* The validity DATES themselves (another choice the reference never reads, sharing the budget of the
+\* namings): "near" = instants 1, 3 a few days before / after now and window ends within years of it;
+\* "extreme" = instant 1 at 0001-01-01 / 1949-12-31 23:59:59 / 1950-01-01, instant 3 at 2049-12-31
+\* 23:59:59 / 2050-01-01 / 9999-12-31 23:59:59 (the edges of UTCTime and GeneralizedTime), and every
+\* window - of each X.509 element and of the root - begins / ends at those edge dates: notBefore =
+\* 00010101000000Z, notAfter = 99991231235959Z ("no expiry"), notBefore = notAfter, one-second windows.
+\* A certificate is inside its period iff notBefore <= now <= notAfter (both ends inclusive, as the
+\* code compares), wherever on the calendar that is.
+Stretch == /\ phase = "env" /\ ndef < MaxDefects /\ ndef < MaxWithRename /\ nren < MaxRenames
+           /\ scale = "near" /\ scale' = "extreme"
+           /\ ndef' = ndef + 1 /\ nren' = nren + 1
+           /\ UNCHANGED <<cert, rot, clks, outs, sysv, obsv>>
+
+(***************************************************************************)
+(* Env: time passes (or is set back) and the SAME loaded certificate object *)
+(* and root element are asked again: validate_and_get_values starts over    *)
+(* at the chain construction.  Only worth exploring when some window does   *)
+(* not cover all instants.                                                  *)
+(***************************************************************************)
+TimeSensitive == rot.win # "all" \/ \E n \in DOMAIN cert : cert[n].kind = "x509" /\ cert[n].win # "all"
+Retime(c, k) == [n \in DOMAIN c |-> IF c[n].kind = "x509" THEN [c[n] EXCEPT !.time = TimeAt(c[n].win, k)]
+                                     ELSE c[n]]
+Tick == /\ phase = "done" /\ outcome # "loaderror" /\ Len(clks) < MaxRounds /\ TimeSensitive
+        /\ \E k \in Clocks \ {Clk} :
+              /\ clks' = Append(clks, k)
+              /\ cert' = Retime(cert, k) /\ rot' = [rot EXCEPT !.time = TimeAt(rot.win, k)]
+        /\ outs' = Append(outs, outcome)
+        /\ phase' = "build" /\ cur' = Target /\ chain' = <<>> /\ certifier' = None /\ steps' = 0
+        /\ outcome' = None /\ failing' = None /\ reported' = None
+        /\ UNCHANGED <<ndef, nren, scale, visited>>
 
 SysNext == Start \/ ParseStep \/ Build \/ Walk
-Next == Mutate \/ MutateName \/ SysNext
+Next == Mutate \/ MutateName \/ Stretch \/ SysNext \/ Tick
 Spec == Init /\ [][Next]_vars /\ WF_vars(Next)
 
 (***************************************************************************)
@@ -223,6 +279,8 @@ LoadErrorIffNoPath == Done => ((outcome = "loaderror") <=> (Path(cert, Target) =
 Bounded == steps <= 3 * Cardinality(DOMAIN cert) + 4
 Terminates == <>Done
 
+\* vacuity guards: a verdict that changes between two validations of the same object must occur
+NeverChanges   == ~(Done /\ Len(outs) >= 1 /\ outs[Len(outs)] # outcome)
 \* vacuity guards - each must be VIOLATED (negative configuration)
 NeverValid     == outcome # "valid"
 NeverInvalid   == outcome # "invalid"
